@@ -282,7 +282,11 @@ def rule_json(chk):
         problems.append("a write can skip validation")
     rec = [n for n in wcfg.live for c, m in calls_in_node(n) if isinstance(c.func, ast.Attribute) and c.func.attr == "append" and common.is_self_attr(c.func.value, "_failed_validations")]
     hn = [n for n in wcfg.live if n.kind == "handler"]
-    if not rec or not hn or not wcfg.must_pass(hn, [wcfg.exit], rec)[0]:
+    okrec = bool(rec) and bool(hn)
+    for h in hn:
+        inf = common.infeasible_edges(wcfg, w, start=h)
+        okrec = okrec and wcfg.must_pass([h], [wcfg.exit], rec, avoid_edges=inf)[0]
+    if not okrec:
         problems.append("a validation failure at write time is not recorded")
     chk.req(not problems, "C14.json", "MemoryLogger.write:validates-a-copy-and-records-failures", chk.where(w), good="validate(copy) on every write; failures recorded", fail="; ".join(problems))
     vd = ctx.func("_output", "MemoryLogger.validate")
